@@ -20,13 +20,14 @@ open AGV.Spec.Exec (FieldOcc selectOp)
 
 /-- MERGED FIELDS RESOLVE ONCE — in the REPAIRED model (occurrences grouped by response key
     before execution; FALSE on the pinned tree, see `c04_once_violated_by_perOccurrence`): for every
-    schedule, every other defect setting, schema, document, variables and world, no resolver is
+    schedule, both executors (`ns`: nested selection sets serial or not), every other defect setting,
+    schema, document, variables and world, no resolver is
     started twice for the same parent position (response path) and response key — also when
     joins are cancelled, in serial and parallel selection sets, through lists and fragments. -/
-theorem c04_once (D : ExecStatic.Defects) (σ : Gate) (S : Schema) (d : Doc) (opName : Option String)
+theorem c04_once (ns : Bool) (D : ExecStatic.Defects) (σ : Gate) (S : Schema) (d : Doc) (opName : Option String)
     (raw : List (String × GValue)) (w : World) (fuel : Nat) :
-    (run D false σ S d opName raw w fuel).starts.Nodup := by
-  unfold run
+    (runWith ns D false σ S d opName raw w fuel).starts.Nodup := by
+  unfold runWith
   split
   · simp [TRes.starts]
   · exact (resolveContainerT_inv _ (fun _ => True) (keysNodup_repaired _ rfl) _ _ _ _ _ _ _ _ trivial).1
@@ -76,7 +77,7 @@ theorem c04_events_within_lifetime (g : Cfg) (serial : Bool) (fuel : Nat) (st rt
 
 /-- The field futures of a selection set, in collection order. -/
 def fieldFutures (g : Cfg) (fuel : Nat) (st rt : String) (id : Nat) (sels : List Sel) (path : List PathSeg) : List (Nat → TRes) :=
-  (occsOf g rt (fuel + 1) st sels).map (fun occ => runFieldT g (resolveContainerT g false fuel) rt id path occ)
+  (occsOf g rt (fuel + 1) st sels).map (fun occ => runFieldT g (resolveContainerT g g.nestedSerial fuel) rt id path occ)
 
 /-- MUTATION ROOT FIELDS RUN ONE AT A TIME, IN ORDER — for every schedule (gate function), every
     defect setting, schema, document and world.  The trace of a serially executed selection set
@@ -94,7 +95,7 @@ theorem c04_mutation_serial (g : Cfg) (fuel : Nat) (st rt : String) (id : Nat) (
     intro f hf s'
     simp only [fs, fieldFutures, List.mem_map] at hf
     obtain ⟨occ, _, rfl⟩ := hf
-    exact runFieldT_bnd g _ (fun a b i ss p t => resolveContainerT_bnd g fuel false a b i ss p t) _ _ _ _ _
+    exact runFieldT_bnd g _ (fun a b i ss p t => resolveContainerT_bnd g fuel g.nestedSerial a b i ss p t) _ _ _ _ _
   refine ⟨?_, serialRuns_pairwise fs hb s⟩
   simp only [resolveContainerT, if_true]
   rw [← joinSer_evs]
@@ -103,13 +104,14 @@ theorem c04_mutation_serial (g : Cfg) (fuel : Nat) (st rt : String) (id : Nat) (
 
 /-- …and the root selection set of a mutation IS executed by the serial join (a query's by the
     parallel one). -/
-theorem c04_mutation_root_uses_serial_join (D : ExecStatic.Defects) (perOcc : Bool) (σ : Gate) (S : Schema) (d : Doc)
+theorem c04_mutation_root_uses_serial_join (ns : Bool) (D : ExecStatic.Defects) (perOcc : Bool) (σ : Gate) (S : Schema) (d : Doc)
     (opName : Option String) (raw : List (String × GValue)) (w : World) (fuel : Nat) (op : OpDef)
     (hop : selectOp d opName = some op) (hm : op.ty = .mutation) :
     ∃ (c : ExecStatic.Ctx) (sels : List Sel),
-      run D perOcc σ S d opName raw w fuel =
-        resolveContainerT { c := c, perOccurrence := perOcc, gate := σ } true fuel (S.mutation.getD "") (S.mutation.getD "") 0 sels [] 0 := by
-  simp only [run, hop, hm]
+      runWith ns D perOcc σ S d opName raw w fuel =
+        resolveContainerT { c := c, perOccurrence := perOcc, gate := σ, nestedSerial := ns } true fuel
+          (S.mutation.getD "") (S.mutation.getD "") 0 sels [] 0 := by
+  simp only [runWith, hop, hm]
   exact ⟨_, _, rfl⟩
 
 -- ------------------------------------------------------------------ witness (also corpus/C04)
